@@ -1061,54 +1061,67 @@ def _k2(ctx: Context) -> None:
                 ck.violated("C09.K2", f"{fk}:host_header-writer:{text}",
                             f"host_header is written outside HomeKitConnection._connect_once: `{text}` in {f.qualname}", loc)
                 continue
-            if has_unknown(t):
-                ck.unknown("C09.K2", f"host_header value has unknown parts: {show(t, 120)}", loc)
-                continue
-            if t[0] != "fstr":
-                if t[0] == "const":
-                    ck.violated("C09.K2", f"{fk}:host_header-form:{text}", f"_connect_once: host_header is the constant {t[1]!r}", loc)
-                else:
-                    ck.unknown("C09.K2", f"host_header is not an f-string: {show(t, 120)}", loc)
-                continue
-            parts = t[1]
-            consts = tuple(p[1] for p in parts if p[0] == "const")
-            fmts = [p for p in parts if p[0] == "fmt"]
-            form = None
-            if len(parts) == 2 and parts[0][0] == "const" and consts == W.HOST_PLAIN and len(fmts) == 1 and _plain_fmt(fmts[0]):
-                form = "plain"
-            elif len(parts) == 3 and parts[0][0] == "const" and parts[2][0] == "const" and consts == W.HOST_BRACKETED and len(fmts) == 1 and _plain_fmt(fmts[0]):
-                form = "bracketed"
-            ck.check("C09.K2", form is not None, f"_connect_once: host_header = {_show_fstr(t, 24)} is 'Host: ' + address, nothing else (no port)",
-                     f"{fk}:host_header-form:{_show_fstr(t, 24)}",
-                     f"_connect_once: host_header is {_show_fstr(t)}; required f\"Host: [{{h}}]\" or f\"Host: {{h}}\" without port", loc)
-            if form is None:
-                continue
-            n_forms[form] += 1
-            h = fmts[0][1]
-            alts = _alts(h)
-            real = [a for a in alts if a != ("const", None)]
-            ck.check("C09.K2", len(real) == 1 and _is_peer_address(real[0]), f"_connect_once ({form}): h is the connected peer address getpeername()[0]",
-                     f"{fk}:host-value:{form}", f"_connect_once: the Host value is {show(h, 120)}, not the connected peer address", loc)
-            if ("const", None) in alts:
-                present, _absent = _truth_edges(ctx, cfg, h)
-                ctx.must_pass("C09.K2", cfg, node, "peer address test [not None outcome]", present,
-                              desc=f"_connect_once ({form}): the address is known when the Host header is built")
-            colon, nocolon = [], []
-            for n in cfg.nodes:
-                if n.kind != "test":
+            # the value is built here, or by a helper function called here (then every return of the helper is a form site)
+            sites = [(f, cfg, node, t, None)]
+            if t[0] == "call" and t[1][0] == "glob" and t[1][1] in ctx.prog.functions and not t[3]:
+                g = ctx.prog.functions[t[1][1]]
+                if not g.is_async and not g.is_generator and not isinstance(g.node, ast.Lambda) and len(t[2]) <= len(g.pos_params):
+                    gcfg = ctx.cfg(g.qualname)
+                    argmap = {("param", g.pos_params[i]): a for i, a in enumerate(t[2])}
+                    sites = [(g, gcfg, rn, strip_sites(T.of(gcfg, rn, rn.exprs[0])), argmap) for rn in gcfg.nodes if rn.kind == "return" and rn.exprs and not rn.copy_of]
+            for sf, scfg, snode, st_, argmap in sites:
+                sfk = ctx.fkey(sf)
+                sloc = ctx.loc(sf, snode)
+                where = "_connect_once" if argmap is None else f"{sf.name} (called from _connect_once)"
+                if has_unknown(st_):
+                    ck.unknown("C09.K2", f"host_header value has unknown parts: {show(st_, 120)}", sloc)
                     continue
-                tt = strip_sites(T.of(cfg, n, n.exprs[0]))
-                if tt[0] == "cmp" and len(tt[1]) == 1 and tt[1][0] in ("In", "NotIn") and tt[2] == (("const", ":"), h):
-                    pos = tt[1][0] == "In"
-                    colon += ctx.edges(cfg, n, "T" if pos else "F")
-                    nocolon += ctx.edges(cfg, n, "F" if pos else "T")
-            if form == "bracketed":
-                ctx.must_pass("C09.K2", cfg, node, "':' in h [true outcome]", colon,
-                              desc="_connect_once: the bracketed form is used only for IPv6 literals (':' in h)")
-            else:
-                ctx.must_pass("C09.K2", cfg, node, "':' in h [false outcome]", nocolon,
-                              desc="_connect_once: the bare form is used only when h has no ':'")
-    _require_min(ck, "C09.K2", "assignments to host_header", n_writes, 3)
+                if st_[0] != "fstr":
+                    if st_[0] == "const":
+                        ck.violated("C09.K2", f"{sfk}:host_header-form:{text}", f"{where}: host_header is the constant {st_[1]!r}", sloc)
+                    else:
+                        ck.unknown("C09.K2", f"host_header is not an f-string: {show(st_, 120)}", sloc)
+                    continue
+                parts = st_[1]
+                consts = tuple(p[1] for p in parts if p[0] == "const")
+                fmts = [p for p in parts if p[0] == "fmt"]
+                form = None
+                if len(parts) == 2 and parts[0][0] == "const" and consts == W.HOST_PLAIN and len(fmts) == 1 and _plain_fmt(fmts[0]):
+                    form = "plain"
+                elif len(parts) == 3 and parts[0][0] == "const" and parts[2][0] == "const" and consts == W.HOST_BRACKETED and len(fmts) == 1 and _plain_fmt(fmts[0]):
+                    form = "bracketed"
+                ck.check("C09.K2", form is not None, f"{where}: host_header = {_show_fstr(st_, 24)} is 'Host: ' + address, nothing else (no port)",
+                         f"{sfk}:host_header-form:{_show_fstr(st_, 24)}",
+                         f"{where}: host_header is {_show_fstr(st_)}; required f\"Host: [{{h}}]\" or f\"Host: {{h}}\" without port", sloc)
+                if form is None:
+                    continue
+                n_forms[form] += 1
+                h = fmts[0][1]
+                hc = h if argmap is None else argmap.get(h, ("unknown", "not a parameter of the helper"))
+                alts = _alts(hc)
+                real = [a for a in alts if a != ("const", None)]
+                ck.check("C09.K2", len(real) == 1 and _is_peer_address(real[0]), f"{where} ({form}): h is the connected peer address getpeername()[0]",
+                         f"{sfk}:host-value:{form}", f"{where}: the Host value is {show(hc, 120)}, not the connected peer address", sloc)
+                if ("const", None) in alts:
+                    present, _absent = _truth_edges(ctx, cfg, hc)
+                    ctx.must_pass("C09.K2", cfg, node, "peer address test [not None outcome]", present,
+                                  desc=f"_connect_once ({form}): the address is known when the Host header is built")
+                colon, nocolon = [], []
+                for n in scfg.nodes:
+                    if n.kind != "test":
+                        continue
+                    tt = strip_sites(T.of(scfg, n, n.exprs[0]))
+                    if tt[0] == "cmp" and len(tt[1]) == 1 and tt[1][0] in ("In", "NotIn") and tt[2] == (("const", ":"), h):
+                        pos = tt[1][0] == "In"
+                        colon += ctx.edges(scfg, n, "T" if pos else "F")
+                        nocolon += ctx.edges(scfg, n, "F" if pos else "T")
+                if form == "bracketed":
+                    ctx.must_pass("C09.K2", scfg, snode, "':' in h [true outcome]", colon,
+                                  desc=f"{where}: the bracketed form is used only for IPv6 literals (':' in h - every IPv6 literal, scoped ones like fe80::1%eth0 included, and no IPv4 literal)")
+                else:
+                    ctx.must_pass("C09.K2", scfg, snode, "':' in h [false outcome]", nocolon,
+                                  desc=f"{where}: the bare form is used only when h has no ':' (a stricter test, e.g. inet_pton, leaves scoped IPv6 literals unbracketed)")
+    _require_min(ck, "C09.K2", "assignments to host_header", n_writes, 2)
     _require_min(ck, "C09.K2", "bare Host form", n_forms["plain"], 1)
     if n_forms["plain"] and not n_forms["bracketed"]:
         ck.violated("C09.K2", f"{ctx.fkey(owner)}:no-bracketed-form", "_connect_once: IPv6 literals are never bracketed in the Host header", owner.loc())
